@@ -14,19 +14,7 @@ from specs import shared
 from specs.shared import REPO_PY, UF, H
 
 LEVEL = 'proof'
-BODY = models.opaque_type('Body', pytype='dict')
-SNAPDATA = models.opaque_type('SnapData', pytype='dict')
-
-
-def _body_getitem(interp, st, v, idx):
-    if idx == 'data':
-        f = UF('body_data', BODY, Opt(SNAPDATA))
-        yield st, SV(Opt(SNAPDATA), f(v.z))
-    else:
-        raise sym.Unsupported(f'body[{idx!r}]')
-
-
-BODY.getitem = _body_getitem
+BODY, SNAPDATA = shared.BODY, shared.SNAPDATA
 
 
 def setup(b):
@@ -72,10 +60,16 @@ def setup(b):
     b.B, b.decode, b.path, b.d = B, decode, path, d
 
 
+def sig(p):
+    return ','.join(e.kind for e in p.st.events if e.kind not in ('yield',)) + '->' + p.kind + (
+        ':' + p.value.cls if p.kind == 'raise' else '')
+
+
 def post(res):
     b = res.builder
     Hf = H()
     for i, p in enumerate(res.paths):
+        i = sig(p)
         decs = p.events('decode')
         # verified: whatever is decoded hashes to the expected digest (cache path included)
         for e in decs:
@@ -94,7 +88,8 @@ def post(res):
             # fallback: a cache entry alone never makes the command fail; every error path
             # has attempted the download of this very path
             dl = [e for e in p.st.events if e.kind in ('download', 'download_failed')]
-            res.oblige(p, f'load.fallback#{i}', z3.BoolVal(bool(dl)),
+            verified_used = [Hf(sym.lift(e.data['data'], BYTES).z) == b.d.z for e in decs]
+            res.oblige(p, f'load.fallback#{i}', z3.Or(z3.BoolVal(bool(dl)), *verified_used),
                        meta={'path_events': [x.kind for x in p.st.events], 'exc': p.value.cls})
             if p.value.cls == 'ReplicatError':
                 # "corrupted" is reported only for the downloaded object
